@@ -76,6 +76,77 @@ pub fn templates_ext() -> Vec<Template> {
     v
 }
 
+/// A destroyer whose deletion depends on a value an earlier transaction of the block writes:
+/// with calldata it stores calldata[0] in its slot 0; without, it calls X (which self-destructs)
+/// iff its slot 0 is zero (`destroy_when_zero`) resp. non-zero. A stale first incarnation then
+/// deletes (or keeps) X and the re-execution does the opposite, so whatever the first incarnation
+/// published about X - reset marker, account deletion - has to disappear again.
+fn cond_destroyer(x: Address, destroy_when_zero: bool) -> Vec<u8> {
+    use crate::world::op::*;
+    let a = Asm::new().op(CALLDATASIZE).push_label("set").op(JUMPI).push(0).op(SLOAD);
+    let a = if destroy_when_zero { a } else { a.op(ISZERO) };
+    a.push_label("skip")
+        .op(JUMPI)
+        .push(0)
+        .push(0)
+        .push(0)
+        .push(0)
+        .push(0)
+        .push_addr(x)
+        .op(GAS)
+        .op(CALL)
+        .op(POP)
+        .label("skip")
+        .op(STOP)
+        .label("set")
+        .push(0)
+        .op(CALLDATALOAD)
+        .push(0)
+        .op(SSTORE)
+        .op(STOP)
+        .build()
+}
+
+fn conditional_destroy_jobs(tier: Tier, v: &mut Vec<Job>) {
+    let x = x_addr();
+    for destroy_when_zero in [true, false] {
+        let mut db = world();
+        db.deploy(contract(12), cond_destroyer(x, destroy_when_zero));
+        let tag = if destroy_when_zero { "stale-destroys" } else { "retry-destroys" };
+        for reader in ["probeslot(X,1)", "probe(X)", "write(X.0=7)+probeslot(X,0)"] {
+            let mut txs = vec![
+                ("D.set(1)(e0)".to_string(), call(eoa(0), 0, contract(12), &[word(1)])),
+                ("D.go(e1)".to_string(), tx(eoa(1), 0, Some(contract(12)), 0, Default::default())),
+            ];
+            match reader {
+                "probeslot(X,1)" => txs.push(("probeslot(X,1)(e3)".to_string(), call(eoa(3), 0, contract(8), &[word_addr(x), word(1)]))),
+                "probe(X)" => txs.push(("probe(X)(e3)".to_string(), call(eoa(3), 0, contract(3), &[word_addr(x)]))),
+                _ => {
+                    txs.push(("write(X.0=7)(e2)".to_string(), call(eoa(2), 0, x, &[word(0), word(7)])));
+                    txs.push(("probeslot(X,0)(e3)".to_string(), call(eoa(3), 0, contract(8), &[word_addr(x), word(0)])));
+                }
+            }
+            for spec in [SpecId::BERLIN, SpecId::SHANGHAI, SpecId::CANCUN] {
+                if tier == Tier::Quick && spec != SpecId::BERLIN {
+                    continue;
+                }
+                let case = Case::new(format!("c08:cond-destroy:{tag}:{reader}:{}", spec_name(spec)), spec, db.clone(), txs.clone());
+                match tier {
+                    Tier::Quick => {
+                        v.push(pipeline_job("c08-race", &case, &RunCfg::parallel(2), COARSE, 2, true));
+                        v.push(pipeline_job("c08-race", &case, &RunCfg::parallel(2), FINE, 1, false));
+                    }
+                    Tier::Thorough => {
+                        v.push(pipeline_job("c08-race", &case, &RunCfg::parallel(2), COARSE, 3, true));
+                        v.push(pipeline_job("c08-race", &case, &RunCfg::parallel(3), COARSE, 2, true));
+                        v.push(pipeline_job("c08-race", &case, &RunCfg::parallel(2), FINE, 2, true));
+                    }
+                }
+            }
+        }
+    }
+}
+
 pub fn jobs(tier: Tier) -> Vec<Job> {
     let db = world();
     let templates = templates();
@@ -116,6 +187,7 @@ pub fn jobs(tier: Tier) -> Vec<Job> {
             v.push(pipeline_job("c08-lifecycle", &case, &RunCfg::parallel(2), COARSE, b, false));
         }
     }
+    conditional_destroy_jobs(tier, &mut v);
     // readers racing the destroying transaction: deeper schedules on the sharpest pairs
     let sharp: &[&[&str]] = &[
         &["destroy(X)(e1)", "probeslot(X,0)(e3)"],
